@@ -244,24 +244,44 @@ Inductive ReachP (c : cfg) : scr -> term -> option canvas -> Prop :=
       ReachP c s t last -> resized_partial s t t' ->
       ReachP c (ack (winch s)) t' None.
 
-(* ---------- any decodable text (statement kept in full; refuted, see Properties/C04.v) ---------- *)
-Definition chr_any (utf8 : bool) (ch : chr) : Prop :=
-  0 <= fst ch /\ (snd ch = 1 \/ (utf8 = true /\ (snd ch = 0 \/ snd ch = 2))) /\ (fst ch = 32 -> snd ch = 1).
+(* ---------- any text: runs may start with a character that takes no column, or hold no column ---------- *)
+Definition paint_run (c : cfg) (P : list cell) (r : crun) : list cell :=
+  let '(a, cs, text) := r in paint_text P cs (attr_vis c a) (out_text c cs text).
+Definition row_paint (c : cfg) (P : list cell) (row : crow) : list cell := fold_left (paint_run c) row P.
+Definition run_any (c : cfg) (r : crun) : Prop :=
+  let '(a, cs, text) := r in
+  text <> [] /\ Forall (chr_ok (g_utf8 c)) text /\
+  (if g_utf8 c then cs = 0 else cs = 0 \/ cs = 1 \/ cs = 2) /\
+  (cs = 2 -> Forall (fun ch : chr => 32 <= fst ch) text).
+Definition row_any (c : cfg) (cols : Z) (row : crow) : Prop := Forall (run_any c) row /\ row_width row = cols.
 Definition canvas_any (c : cfg) (cols rows : Z) (content : list crow) : Prop :=
-  zlen content = rows /\
-  Forall (fun row : crow =>
-            Forall (fun r : crun => let '(a, cs, text) := r in
-                      text <> [] /\ Forall (chr_any (g_utf8 c)) text /\
-                      (if g_utf8 c then cs = 0 else cs = 0 \/ cs = 1 \/ cs = 2)) row
-            /\ row_width row = cols) content.
-Definition paints_any (c : cfg) (t : term) (content : list crow) (cursor : option (Z * Z)) : Prop :=
-  (zlen (t_grid t) = zlen content /\
-   forall y row, nthz content y = Some row -> Forall2 vis_eq (row_cells_threaded c row) (get_row (t_grid t) y)) /\
-  cursor_shown t cursor /\ t_scrolled t = false.
-(* draw_paints for canvases whose runs may start with a combining character and may contain C0 control characters *)
+  zlen content = rows /\ Forall (row_any c cols) content.
+Definition row_shows_any (c : cfg) (row : crow) (trow : list cell) : Prop :=
+  Forall2 vis_eq (row_cells_threaded c row) trow.
+Definition grid_shows_any (c : cfg) (content : list crow) (grid : list (list cell)) : Prop :=
+  zlen grid = zlen content /\
+  forall y row, nthz content y = Some row -> row_shows_any c row (get_row grid y).
+Definition PaintsAny (c : cfg) (t : term) (content : list crow) (cursor : option (Z * Z)) : Prop :=
+  grid_shows_any c content (t_grid t) /\ cursor_shown t cursor /\ t_scrolled t = false.
+Definition SyncAny (c : cfg) (s : scr) (t : term) : Prop :=
+  s_ru s = None /\ s_resized s = false /\ term_ok t /\
+  t_irm t = false /\ t_scrolled t = false /\ t_ibm t = false /\
+  (g_utf8 c = true -> t_so t = false) /\
+  (s_g1 s = true -> t_g1 t = true) /\
+  (g_bce c = true -> t_bce t = true) /\
+  (s_buf s <> [] -> grid_shows_any c (s_buf s) (t_grid t)).
+(* draw_paints for every canvas: the row spec threads combining characters across runs *)
 Definition draw_paints_any_text_full : Prop :=
   forall c s t cols rows content cursor,
-    cfg_ok c -> Sync c s t -> t_cols t = cols -> t_rows t = rows ->
+    cfg_ok c -> SyncAny c s t -> t_cols t = cols -> t_rows t = rows ->
     canvas_any c cols rows content -> cursor_ok cols rows cursor ->
     exists toks s', draw_screen c s cols rows content cursor false false = Ok (toks, s') /\
-                    paints_any c (run t toks) content cursor.
+                    PaintsAny c (run t toks) content cursor /\ SyncAny c s' (run t toks).
+
+(* every history of draws of ANY canvases from a fresh terminal paints its last canvas *)
+Definition draws_paint_any_statement : Prop :=
+  forall c cols rows frames content cursor s t,
+    cfg_ok c -> 1 <= cols -> 1 <= rows ->
+    Forall (fun f : canvas => canvas_any c cols rows (fst f) /\ cursor_ok cols rows (snd f)) (frames ++ [(content, cursor)]) ->
+    run_draws c (init_scr false) (new_term cols rows) (frames ++ [(content, cursor)]) = Some (s, t) ->
+    PaintsAny c t content cursor.
